@@ -1053,6 +1053,20 @@ def gen_decide_nl():
         if isinstance(st, ast.Assign) and isinstance(st.targets[0], ast.Tuple) and isinstance(st.value, ast.Tuple):
             for a, b in zip(st.targets[0].elts, st.value.elts): al.append('(%s, %s)' % (lstr(ast.unparse(a)), lstr(ast.unparse(b))))
     out.append('def aliases : List (String × String) := ' + llist(al))
+    # the relative gap that the stopping test reads: the if / elif / else chain that assigns `relgap` in the statistics block
+    chain = None
+    for st in loop.body:
+        if st is decision: break
+        if isinstance(st, ast.If) and any(isinstance(x, ast.Assign) and isinstance(x.targets[0], ast.Name) and x.targets[0].id == 'relgap' for x in ast.walk(st)):
+            chain = st
+    if chain is None: raise Untranslatable('cpl: the statement that assigns relgap before the stopping test was not found')
+    R = StatT()
+    if not R.stmt(chain) or len(R.lines) != 1 or not R.lines[0].startswith('let relgap : Option K := '):
+        raise Untranslatable('cpl: relgap is not assigned by a plain if / elif / else chain: `%s`' % ast.unparse(chain)[:80])
+    rfree = sorted(R.free)
+    out.append('/-- `relgap` as assigned in the statistics block of `cpl` -/')
+    out.append('def relgapDef %s : Option K := %s' % (' '.join('(%s : K)' % v for v in rfree), R.lines[0][len('let relgap : Option K := '):]))
+    out.append('def relgapParams : List String := ' + llist(map(lstr, rfree)))
     out += ['end', 'end cpl', '', 'end CvxVerif.Gen.DecideNL', '']
     write_if_changed(os.path.join(GEN, 'DecideNL.lean'), '\n'.join(out))
     return []
